@@ -10,6 +10,7 @@ CONSTANTS
   BugH9 = FALSE
   BugH10 = TRUE
   BugMetaStale = TRUE
+  BugH11 = FALSE
   KRounds = 12
 INVARIANTS TypeOK C09Strict C15ModKF
 VIEW ExhView
